@@ -497,7 +497,7 @@ func (se *SessionExecutor) getBackendKsConn(reqCtx *util.RequestContext, sliceNa
 		if err = pc.SetAutoCommit(0); err != nil {
 			pc.Close()
 			pc.Recycle()
-			return
+			return nil, err
 		}
 	}
 
@@ -505,7 +505,7 @@ func (se *SessionExecutor) getBackendKsConn(reqCtx *util.RequestContext, sliceNa
 		if err = pc.Begin(); err != nil {
 			pc.Close()
 			pc.Recycle()
-			return
+			return nil, err
 		}
 	}
 
@@ -534,19 +534,19 @@ func (se *SessionExecutor) getTransactionConn(sliceName string) (pc backend.Pool
 	if err = pc.SyncSessionVariables(se.sessionVariables); err != nil {
 		pc.Close()
 		pc.Recycle()
-		return
+		return nil, err
 	}
 	if !se.isAutoCommit() {
 		if err = pc.SetAutoCommit(0); err != nil {
 			pc.Close()
 			pc.Recycle()
-			return
+			return nil, err
 		}
 	} else {
 		if err = pc.Begin(); err != nil {
 			pc.Close()
 			pc.Recycle()
-			return
+			return nil, err
 		}
 	}
 	for _, savepoint := range se.savepoints {
@@ -562,7 +562,8 @@ func (se *SessionExecutor) recycleBackendConn(pc backend.PooledConnect) {
 	}
 
 	if pc.IsClosed() {
-		se.recycleTx()
+		se.recycleTx(pc)
+		se.forgetKsConn(pc)
 		pc.Recycle()
 		return
 	}
@@ -584,12 +585,22 @@ func (se *SessionExecutor) recycleBackendConn(pc backend.PooledConnect) {
 	pc.Recycle()
 }
 
+// forgetKsConn unpins a keep-session connection that is being given back.
+func (se *SessionExecutor) forgetKsConn(pc backend.PooledConnect) {
+	for sliceName, ksConn := range se.ksConns {
+		if ksConn == pc {
+			delete(se.ksConns, sliceName)
+		}
+	}
+}
+
 func (se *SessionExecutor) recycleContinueConn(pc backend.PooledConnect) {
 	if pc == nil {
 		return
 	}
 	if pc.IsClosed() {
-		se.recycleTx()
+		se.recycleTx(pc)
+		se.forgetKsConn(pc)
 		pc.Recycle()
 		return
 	}
@@ -1438,6 +1449,8 @@ func (se *SessionExecutor) rollback() (err error) {
 	se.status &= ^mysql.ServerStatusInTrans
 	for _, pc := range se.txConns {
 		if pc.IsClosed() {
+			// nothing to roll back, but the pool slot must be released
+			pc.Recycle()
 			continue
 		}
 		err = pc.Rollback()
@@ -1499,12 +1512,23 @@ func (se *SessionExecutor) handleSavepoint(stmt *ast.SavepointStmt) (err error) 
 	return
 }
 
-func (se *SessionExecutor) recycleTx() {
+// recycleTx gives up the transaction connections after one of them (failed) broke: the
+// others are rolled back and released instead of being forgotten while still checked out.
+func (se *SessionExecutor) recycleTx(failed backend.PooledConnect) {
 	if !se.isInTransaction() {
 		return
 	}
 	se.txLock.Lock()
 	defer se.txLock.Unlock()
+	for _, pc := range se.txConns {
+		if pc == failed {
+			continue // released by the caller
+		}
+		if !pc.IsClosed() {
+			pc.Rollback()
+		}
+		pc.Recycle()
+	}
 	se.txConns = make(map[string]backend.PooledConnect)
 }
 
